@@ -417,7 +417,11 @@ def run(ctx):
         for i in range(0, len(ops), chunk):
             res += evaluate(ctx, binary, ops[i:i + chunk])
         ctx.log(f"scenarios evaluated ({time.time() - t0:.1f}s since harness build)")
-        report(ctx, binary, res)
+        nprop = report(ctx, binary, res)
+        nerr = ctx.hist.get("harness-error", 0)
+        if len(ops) >= 4 and 2 * nerr > len(ops):  # a harness that cannot drive the code at all is a broken tie
+            ctx.violation("correspondence", "harness cannot drive the SSE/HTTP-stream handlers any more: " + "; ".join(ctx.notes[:2])[:300],
+                          signature={"kind": "harness-dead"}, replay={"ops": ops[:1]}, no_input=(nprop == 0))
         n = len(ops)
     for op in ops:
         ctx.record(op[:4000], nontrivial=True)
